@@ -93,6 +93,10 @@ RQ_KIND = {k: v.replace("-RSP", "-RQ") for k, v in RSP_KIND.items()}
 # ===================================================================== reference side (no pynetdicom below this line
 # until "real side"): status categories per PS3.7 Annex C / the docstrings, identifier encoding, expected results
 
+_GENERAL_FAILURES = {0x0105, 0x0106, 0x0110, 0x0111, 0x0112, 0x0113, 0x0114, 0x0115, 0x0117, 0x0118, 0x0119, 0x0120, 0x0121,
+                     0x0122, 0x0123, 0x0124, 0x0210, 0x0211, 0x0212, 0x0213}      # PS3.7 Annex C
+
+
 def ref_category(status: int) -> str:
     if status == 0x0000:
         return "Success"
@@ -102,9 +106,9 @@ def ref_category(status: int) -> str:
         return "Cancel"
     if status in (0x0001, 0x0107, 0x0116) or 0xB000 <= status <= 0xBFFF:
         return "Warning"
-    if 0xA000 <= status <= 0xAFFF or 0xC000 <= status <= 0xCFFF or 0x0100 <= status <= 0x02FF:
+    if 0xA000 <= status <= 0xAFFF or 0xC000 <= status <= 0xCFFF or status in _GENERAL_FAILURES:
         return "Failure"
-    return "Unknown"
+    return "Unknown"      # never generated
 
 
 def enc_ds(els) -> bytes:
@@ -308,6 +312,25 @@ def single_rsp(op, status, i=0, ds="auto"):
     return rsp(kind, status, ds=ds)
 
 
+def vary(script, rng, rep, model=None):
+    """Later repetitions (thorough tier) draw the service specific statuses from their whole documented ranges."""
+    if rep == 0:
+        return script
+    for s in script:
+        if s["a"] != "rsp" or s.get("omit"):
+            continue
+        st = s["status"]
+        if model == "repo" and st == 0xB001:
+            continue
+        if 0xA000 <= st <= 0xAFFF and rng.random() < 0.6:
+            s["status"] = rng.randrange(0xA000, 0xB000)
+        elif 0xC000 <= st <= 0xCFFF and rng.random() < 0.6:
+            s["status"] = rng.randrange(0xC000, 0xD000)
+        elif 0xB000 <= st <= 0xBFFF and rng.random() < 0.6:
+            s["status"] = rng.choice([x for x in range(0xB000, 0xC000) if not (model == "repo" and x == 0xB001)])
+    return script
+
+
 def _case(op, cat, script, rng, model=None, mode=None, followup=None):
     nsusp = sum(1 for s in script if s["a"] == "rsp")
     c = {"op": op, "cat": cat, "script": script,
@@ -322,9 +345,10 @@ def _case(op, cat, script, rng, model=None, mode=None, followup=None):
 
 def gen_cases(tier, seed):
     rng = common.rng_for(seed, PID, "cases", tier)
-    reps = 1 if tier == "quick" else 6
+    reps = 1 if tier == "quick" else 40
     cases = []
     for rep in range(reps):
+        n_before = len(cases)
         # ---------------- iterator operations
         for op in ITER_OPS:
             model = None
@@ -431,6 +455,8 @@ def gen_cases(tier, seed):
             c = _case(op, "valid-delayed-threads", sc, rng, mode="exhaust", followup="echo_release")
             c["sched"] = {"reactor_late": 0.15, "caller_late": 0.3}
             cases.append(c)
+        for c in cases[n_before:]:
+            vary(c["script"], rng, rep, c.get("model"))
     rng.shuffle(cases)
     for c in cases:
         reference(c)    # every generated script must be well-formed for the reference
@@ -940,8 +966,9 @@ def run_case(case):
         return r1
     r2 = _run_once(case)
     k2 = {v["key"] for v in r2["violations"]}
-    both = [v for v in r1["violations"] if v["key"] in k2]
-    lost = sorted({v["key"] for v in r1["violations"]} - k2)
+    # the reactor tap is a definite observation (not inferred from timing): reported even when the race does not recur
+    both = [v for v in r1["violations"] if v["key"] in k2 or v["key"].startswith("reactor-consumed-response")]
+    lost = sorted({v["key"] for v in r1["violations"]} - {v["key"] for v in both})
     counters = dict(r1["counters"])
     counters["cases_rerun"] = 1
     if lost:
